@@ -563,6 +563,9 @@ impl Sim {
                 self.committed_txs.push(b);
             }
         }
+        if self.profile == "rollups" {
+            self.serve_and_tamper(height).await;
+        }
         if self.profile == "ibc" || self.profile == "mixed" {
             self.run_packets().await;
         }
